@@ -1,7 +1,7 @@
 from props import job
 
 PROP = dict(
-    technique='rapid-generated HTLC sets/heights/preimage knowledge on a real ChannelArbitrator; decision band (MUST/MAY) oracle written from the property text; resolution oracle per confirmed commitment (one resolver per output, exactly-once fail-backs)',
+    technique='rapid-generated HTLC sets/heights/preimage knowledge on a real ChannelArbitrator; decision band (MUST/MAY) oracle written from the property text; resolution oracle per confirmed commitment (one resolver per output, exactly-once fail-backs); the same oracles on REAL channel states of the two-party channel simulator (real lnwallet commitments, real chain watcher, real close summaries) with expectations from the simulator\'s independent bookkeeping model',
     level="exploration",
     rule=("Synthesised channel states: a universe of <=6 HTLCs, each in a "
           "protocol-reachable life-cycle stage on the three commitments (ours, "
@@ -16,10 +16,23 @@ PROP = dict(
           "resolvers and upstream resolutions compared per HTLC. Non-trivial = "
           ">=3 HTLCs over >=2 distinct commitments with >=1 dust and >=1 "
           "dangling (offered, not on our commitment). Distinct = distinct "
-          "(scenario, heights | close kind, pre-trigger, heights)."),
+          "(scenario, heights | close kind, pre-trigger, heights). "
+          "TestVerifC12Sim: real channel states instead - the channel simulator (all 8 channel types; generated "
+          "add/settle/fail/update_fee/sign/revoke/reconnect schedules, amounts around both parties' dust thresholds, "
+          "duplicates, an epilogue with an update_fee in flight) is sampled at every k-th action, where it stops and during "
+          "the epilogue; for each side and each of {own, peer's current, peer's pending} commitment one evaluation (sub-case): "
+          "HTLC sets from lnd's own newActiveChannelArbitrator on the side's database (or an earlier start-up snapshot plus "
+          "the link's ContractUpdates since), generated deltas / grace / uptime / preimage knowledge / forwarded flags, "
+          "0-4 blocks and/or a user trigger checked against the MUST/MAY band, then the commitment transaction is handed to "
+          "the real chain watcher (handleCommitSpend -> newChainSet, NewLocalForceCloseSummary / NewUnilateralCloseSummary) "
+          "and its close event to the real arbitrator on a real bolt log; resolvers, fail-backs, final outcomes, HTLC "
+          "resolution counts and balance/anchor resolvers are compared with the bookkeeping model (which updates each "
+          "commitment covers, amount vs the commitment owner's dust limit at that commitment's fee rate for the channel "
+          "type). Evaluations of this job are sub-cases; its case count is the number of schedules."),
     assumptions=[
-        "HTLC sets are synthesised (not read from a channel simulator); every HTLC is in a stage the update protocol can reach: offered on ours => on the peer's current; received => on ours",
-        "ContractResolutions handed to the arbitrator are consistent with the confirmed commitment (one resolution per non-dust HTLC there), as lnwallet builds them",
+        "Decision/Resolution jobs: HTLC sets are synthesised; every HTLC is in a stage the update protocol can reach: offered on ours => on the peer's current; received => on ours. The Sim job takes the sets from real lnwallet commitments instead (dust marking OutputIndex<0, all three commitments incl. the pending RemoteCommitChainTip)",
+        "Decision/Resolution jobs: ContractResolutions handed to the arbitrator are consistent with the confirmed commitment (one resolution per non-dust HTLC there). The Sim job uses the resolutions lnwallet really builds (via the real chain watcher) and checks their number per direction against the model",
+        "Sim job: expectations come from the simulator's bookkeeping model (never from lnwallet's markings); a resolver is matched to its HTLC by (direction, HTLC index) and must carry that HTLC's amount/hash/expiry and point at a distinct output of the confirmed transaction with the HTLC's sat value (script validity of the spends is C05's subject); ForceCloseChan returns the stored commitment unsigned and does not mark the channel borked; no breach / cooperative close (C04 / synthesised job); live-mode ContractUpdates carry the HTLC lists of the side's database at each sign / revoke / received revocation (the lists lnwallet returns to the link are not captured by the simulator)",
         "resolver kind is checked by direction only (offered: timeout or outgoing-contest, received: incoming-contest or success); which of the two is lnd policy",
         "breach: every offered HTLC on the peer's commitments must be failed back at least once; duplicates are tolerated (labelled breach_dup_fail)",
         "an offered HTLC that is dust on our commitment, failed back when we broadcast, and has an output on the peer's commitment that confirms instead is lnd's documented trade-off and only labelled (prefail_then_output)",
